@@ -561,6 +561,11 @@ type Mutation { m: Int }
 `
 
 var handRuleDocs = []string{
+	// several operations sharing a fragment that uses variables: every operation is judged on its own
+	`query A($v: Int) { ...FV } query B { ...FV } fragment FV on Query { f(i: $v, nn: 1) }`, `query B { ...FV } query A($v: Int) { ...FV } fragment FV on Query { f(i: $v, nn: 1) }`,
+	`query A($v: Int) { ...FV } query B($w: Int) { ...FV f(i: $w, nn: 2) } fragment FV on Query { f(i: $v, nn: 1) }`, `query A($v: Int) { ...FV } query B($v: Int) { ...FV } fragment FV on Query { f(i: $v, nn: 1) }`,
+	`query A($v: Int) { ...G1 } query B { ...G1 } fragment G1 on Query { a { ...G2 } } fragment G2 on A { x @include(if: $v) }`, `query A($v: String) { ...FV } query B($v: Int) { ...FV } fragment FV on Query { f(i: $v, nn: 1) }`,
+	`query A($v: Int = 1) { g: f(nn: $v) } query B { f } query C($n: Int) { f(nn: $n) }`, `query A { f } query B($v: Int = 1) { g: f(nn: $v) } query C { f(nn: null) }`,
 	// variables used by the directives of a fragment DEFINITION
 	`{ ...F } fragment F on Query @fd(x: $u) { s }`, `query A { ...F } query B($u: Int) { ...F } fragment F on Query @fd(x: $u) { s }`,
 	`query B($u: Int) { ...F } fragment F on Query @fd(x: $u) { s }`, `query B($u: String) { ...F } fragment F on Query @fd(x: $u) { s }`,
